@@ -80,6 +80,8 @@ package cisco
 //vc:  assert[C18] at "acl = append(acl[:i], append(appendACL, acl[i:]...)...)" @appendAfterLastPermit 0 <= i && i <= len(acl) && (i == 0 || strings.Contains(acl[i - 1].parsed, "$NAME extended permit")) && (forall j int :: i <= j && j < len(acl) ==> !strings.Contains(acl[j].parsed, "$NAME extended permit"))
 //vc:  assign at "acl = append(acl[:i], append(appendACL, acl[i:]...)...)" mergeI = i
 //vc:  assign at "acl = append(acl[:i], append(appendACL, acl[i:]...)...)" mergeLen = len(acl)
+// a prepended line is moved behind the Netspoc lines only when IPv4 and IPv6 code are merged, never for a raw file
+//vc:  assert[C18] at "acl = append(acl, prependACL[i])" @rawLinesNotMovedBehind !ab.b.isRaw
 //vc:  ensures[C18] @appendBlockInserted len(appendACL) > 0 ==> len(ab.a.lookup[prefix][name]) == mergeLen + len(appendACL) && (forall j int :: mergeI <= j && j < mergeI + len(appendACL) ==> ab.a.lookup[prefix][name][j] == appendACL[j - mergeI])
 //vc:  ensures[C18,slow] @restKeptBehindAppend len(appendACL) > 0 ==> (forall j int :: mergeI + len(appendACL) <= j && j < len(ab.a.lookup[prefix][name]) ==> !strings.Contains(ab.a.lookup[prefix][name][j].parsed, "$NAME extended permit"))
 // (the clause "prepended lines come first in their order" is proved for mergeIOSACLs only: for this function it no longer
